@@ -113,6 +113,23 @@ def _case(draw):
             n = d.i(0, 3)
             arg = d.pick(names_pool) if d.chance(0.3) else [d.pick(names_pool) for _ in range(n)]
             ops.append([k, arg, d.chance(0.35)])
+        elif k == "configure" and d.chance(0.45):
+            # a caller-made preset mapping: every component / list may be absent or empty (= leave that chain alone);
+            # the progress-guaranteeing rules stay listed (see C01)
+            comps: dict = {}
+            keep = {"core": ["normalize", "block", "inline", "text_join"], "block": ["paragraph"], "inline": ["text"], "inline2": []}
+            pool = {"core": ["linkify", "replacements", "smartquotes"], "block": [x for x in C.BLOCK_OPT], "inline": [x for x in C.INLINE_OPT], "inline2": ["balance_pairs", "strikethrough", "emphasis", "fragments_join"]}
+            for comp in ("core", "block", "inline"):
+                how = d.i(0, 5)
+                if how == 0:
+                    continue
+                entry: dict = {}
+                if how >= 2:
+                    entry["rules"] = [] if how == 2 else keep[comp] + [x for x in pool[comp] if d.chance(0.5)]
+                if comp == "inline" and d.chance(0.7):
+                    entry["rules2"] = [] if d.chance(0.2) else [x for x in pool["inline2"] if d.chance(0.6)]
+                comps[comp] = entry
+            ops.append(["configure_custom", comps, d.chance(0.85)])
         elif k == "configure":
             ops.append(["configure", d.pick(["commonmark", "zero", "default", "js-default", "nosuchpreset"])])
         elif k == "parse":
@@ -449,6 +466,19 @@ def check_facade(case, res: Res) -> None:
                         for c in order:
                             set_active(c, set(presets[p][c]))
                     mutated_after_parse |= parsed
+            elif k == "configure_custom":
+                comps, with_components = op[1], op[2]
+                config = {"options": dict(md.options)}
+                if with_components:
+                    config["components"] = copy.deepcopy(comps)
+                md.configure(config)
+                if with_components:
+                    for comp, entry in comps.items():
+                        if entry.get("rules"):
+                            set_active(comp, set(entry["rules"]))
+                        if comp == "inline" and entry.get("rules2"):
+                            set_active("inline2", set(entry["rules2"]))
+                mutated_after_parse |= parsed
             elif k == "parse":
                 got = dump(md.parse(op[1]))
                 exp = dump(_fresh_like(md).parse(op[1]))
